@@ -2,7 +2,7 @@
    Statements only; proofs live in C03/Proofs.v and C03/Table.v.  Model: C03/Model.v (access scripts
    transcribing psutil/_pslinux.py and psutil/__init__.py), fault model and allowed outcomes:
    C03/Spec.v, guard analysis: C03/Guard.v, the harness's concrete worlds: C03/Run.v. *)
-From PV Require Import Base.Prelude C03.Model C03.Spec C03.Guard C03.Proofs C03.Run C03.Table.
+From PV Require Import Base.Prelude C03.Model C03.Spec C03.Guard C03.Proofs C03.Run C03.Table C03.Native C03.NativeProofs.
 
 (* soundness of the guard for ALL worlds of the fault model: any base answers respecting [opt], any vanish index of
    the process -- whole directory or half-removed (only the entries below /proc/<pid> go, issue 2418) --, any
@@ -85,6 +85,26 @@ Theorem C03_worlds_in_fault_model : forall y kind v h d ov ln gu, (kind <= 3)%na
   base_ok opt_half (mk_world y kind v h d ov ln gu).
 Proof. exact base_ok_worlds_half. Qed.
 Print Assumptions C03_worlds_in_fault_model.
+
+(* ---- the native part behind nice(): psutil_posix_getpriority with errno explicit (C03/Native.v).  For every kernel
+        answer and EVERY errno left by earlier, unrelated calls of the thread the query answers what the target alone
+        determines: each nice value (-1 included) exactly, a refusal as its psutil error *)
+Theorem C03_nice_meets_spec : forall errno0 k, wf_kans k -> nice_query errno0 k = spec_nice k.
+Proof. exact nice_meets_spec. Qed.
+Print Assumptions C03_nice_meets_spec.
+Theorem C03_nice_exact : forall errno0 n, nice_query errno0 (KNice n) = Val n.
+Proof. exact nice_exact. Qed.
+Print Assumptions C03_nice_exact.
+Theorem C03_nice_prior_independent : forall e1 e2 k, nice_query e1 k = nice_query e2 k.
+Proof. exact nice_prior_independent. Qed.
+Print Assumptions C03_nice_prior_independent.
+(* the C idiom without `errno = 0` is wrong exactly for nice value -1 after an earlier failed call *)
+Theorem C03_idiom_no_reset_refuted :
+  nice_with (c_getpriority false TestBoth) ESRCH_ (KNice (-1)) = Exc NoSuchProcess /\
+  (forall n, n <> -1 -> forall e, nice_with (c_getpriority false TestBoth) e (KNice n) = Val n) /\
+  (forall n, nice_with (c_getpriority false TestBoth) 0 (KNice n) = Val n).
+Proof. exact idiom_no_reset_refuted. Qed.
+Print Assumptions C03_idiom_no_reset_refuted.
 
 (* ---- repaired defects (commits 1c63e73, 4ee76b0, a4fac6f, 1195393): the scripts of the code before the repairs
         break the property on single-refusal schedules *)
